@@ -60,6 +60,10 @@ LEAVES = [
     # the task read the ServiceInfo object again at each step (false on a tree without the repair)
     ("Register", "unregister_builds_goodbye_at_call", "_core.py", "Zeroconf.async_unregister_service", ("has_call", "self.generate_service_broadcast"),
      [], "bool", {}),
+    # the registry files an info under `info.key`, the responder looks instance questions up by `name.lower()`: the key follows the name
+    # through every rename (shape pins: the constructor and the `name` setter assign `self.key = name.lower()`)
+    ("Register", "src_info_ctor_key", "_services/info.py", "ServiceInfo.__init__", ("assign", "self.key", 0), [], "src", {}),
+    ("Register", "src_info_name_setter_key", "_services/info.py", "ServiceInfo.name@setter", ("assign", "self.key", 0), [], "src", {}),
     # the registry is keyed by name: removal is by key, never by object identity (an equal-but-distinct ServiceInfo, or the
     # handle from before update_service, withdraws the service)
     ("Register", "registry_remove_by_identity", "_services/registry.py", "ServiceRegistry.async_remove", ("has_identity_test",),
